@@ -56,7 +56,7 @@ def typeable(words):
 
 
 class C14(Prop):
-    """Theorems (Props/C14.lean): with one indexing worker the index is a function of the shipped data, and top-1 with a fixed tie-break is a function of the index; repeated real builds (in memory, first on disk, reopened) return the same constant for every query, including deliberately ambiguous ones. The tantivy scheduler and f32 ranking are runtime behaviour outside the model (partial)."""
+    """Theorems (Props/C14.lean): every index-writer construction in db.rs asks for one thread (re-extracted each run); with one worker every schedule yields the shipped document order, so in-memory, first on-disk and reopened sessions answer every query alike, ties included; with any number of workers a unique top score is schedule-independent, and a tie is not (counterexample). Correspondence: repeated real builds in memory, on disk, reopened, over every fact's words and ambiguous prefixes. tantivy's scheduler and f32 ranking are outside the model (partial)."""
     id = "C14"
     module = "Anything.Props.C14"
     needs_db_tables = True
@@ -228,7 +228,7 @@ class C15(Prop):
 
 
 class C16(Prop):
-    """Theorems (Props/C16.lean): a typeable word sequence is parsed as one fact phrase and evaluated by exactly one lookup of exactly that phrase; every shipped constant decodes completely through the model decoder; the ranking step itself (tantivy BM25 in f32) is run exhaustively on all shipped constants and their word permutations, not proved (partial)."""
+    """Theorems (Props/C16.lean): for every shipped constant whose words can be typed (777 of 878; kernel run of lexer, parser and evaluator models on each) the query of its words performs exactly one lookup of exactly that phrase; the query's terms are the constant's indexed terms (also permuted), no word loses all its terms; top-1 returns a carrier of all words whenever carriers outscore non-carriers. That separation for tantivy's BM25 is established per run by exhaustive execution over all shipped constants and their word permutations, not proved (partial)."""
     id = "C16"
     module = "Anything.Props.C16"
     needs_db_tables = True
@@ -292,7 +292,7 @@ class C16(Prop):
 
 
 class C17(Prop):
-    """Theorems (Props/C17.lean): decode (encode v) = v for big integers (sign + base-2^32 limbs), rationals, units, states, compounds and constants at the data-model level, derived-unit identifiers are unique and each decodes to its own unit; correspondence: the implementation's CBOR and JSON bytes equal the model's for random big rationals, random compounds, every derived unit and every shipped constant, and both round-trip."""
+    """Theorems (Props/C17.lean): value-level and byte-level round trips for big integers, rationals, units, states, compounds, constants (all values; UTF-8 round trip proved), encode injective, identifiers unique and decode to their unit, JSON printer injective, identifiers recorded at the pinned commit still denote the same unit. Correspondence: implementation bytes = model bytes for random rationals/compounds, every unit, every shipped constant; bytes written by the pinned build and every shipped fact decode to the same units by name; every typed unit name survives a round trip by display name."""
     id = "C17"
     module = "Anything.Props.C17"
     needs_tables = True
@@ -394,7 +394,7 @@ class C17(Prop):
 
 
 class C18(Prop):
-    """Theorems (Props/C18.lean): the evaluator's results do not depend on the describe flag, the description log is exactly the successful lookups in evaluation order, and the model's database is immutable; correspondence: expressions mixing literals and fact phrases evaluated with and without descriptions and in varying orders against one database instance."""
+    """Theorems (Props/C18.lean): values do not depend on the describe flag; no log without it; the log appends, independent of the incoming log; every entry is a successful lookup paired with that constant's description; the value depends on the database only through the reported phrases (and each is needed); order (right operand first); results of several queries = results in isolation, also permuted. Correspondence: expressions mixing literals and facts with and without descriptions in varying orders; isolation scenario (fresh instance per phrase vs shared instance in several orders, case variants, capitalised operators)."""
     id = "C18"
     module = "Anything.Props.C18"
     needs_tables = True
